@@ -207,10 +207,6 @@ func cmdCases(args []string) {
 		if len(r.Disagreements) > 0 {
 			sum["cases_with_disagreements"]++
 		}
-		if len(samples) < 4 && i%997 == 0 && c.Exp.Ok && len(c.Exp.Posts) > 1 {
-			rd := ns.Render(c.Prog, "lit")
-			samples = append(samples, map[string]any{"script": rd.Script, "balances": c.Bal, "expected_postings": c.Exp.Posts})
-		}
 		mu.Unlock()
 		for _, d := range r.Disagreements {
 			sig := ns.Signature(&c, d)
@@ -271,10 +267,10 @@ func cmdRobust(args []string) {
 				sum["distinct_nontrivial"]++
 			}
 		}
-		if len(samples) < 4 && i%1499 == 0 {
+		if i%1499 < *stride {
 			vs := ns.Variants(&c, true)
 			v := vs[len(vs)/2]
-			samples = append(samples, map[string]any{"label": v.Label, "script": v.Script, "vars": v.Vars})
+			samples = append(samples, map[string]any{"idx": i, "label": v.Label, "script": v.Script, "vars": v.Vars})
 		}
 		mu.Unlock()
 		for _, f := range o.Disagreements {
@@ -286,6 +282,10 @@ func cmdRobust(args []string) {
 			sigs.add(f.Kind, sig, i, f.Detail, "", f.Variant.Script, json.RawMessage(lines[i]), f.Variant)
 		}
 	})
+	sort.Slice(samples, func(a, b int) bool { return samples[a].(map[string]any)["idx"].(int) < samples[b].(map[string]any)["idx"].(int) })
+	if len(samples) > 4 {
+		samples = samples[:4]
+	}
 	writeJSON(*summary, map[string]any{"counts": sum, "finding_kinds": labels, "signatures": sigs.list(), "samples": samples})
 }
 
@@ -321,9 +321,6 @@ func cmdAllot(args []string) {
 		}
 		if nz >= 2 {
 			sum["nontrivial"]++
-		}
-		if len(samples) < 4 && i%2503 == 0 && nz >= 2 {
-			samples = append(samples, c)
 		}
 		for _, d := range r.Disagreements {
 			kinds[d.Kind]++
